@@ -186,7 +186,7 @@ PROPERTIES = {
         "rules": ["T-PLAN", "T-SEMI", "T-LOOP", "T-DELTA", "T-DIRTY", "T-CANON", "T-INS", "T-MOVE", "T-DIAG", "T-FUNC", "T-AGE", "T-FLAT"],
         "level": "translation_validation",
     },
-    "C02": {"rules": ["T-PLAN", "T-DIAG", "T-LOOP", "T-API", "T-ALLOC", "T-FLAT"], "level": "translation_validation"},
+    "C02": {"rules": ["T-PLAN", "T-DIAG", "T-INS", "T-MOVE", "T-CANON", "T-LOOP", "T-API", "T-ALLOC", "T-FLAT"], "level": "translation_validation"},
     "C03": {"rules": ["T-SEMI", "T-MOVE", "T-CANON", "T-LOOP", "T-INS", "T-DIAG", "T-AGE"], "level": "translation_validation"},
     "C04": {"rules": ["T-FAM", "T-INS", "T-MOVE", "T-CANON", "T-DIAG", "T-DIRTY", "T-API", "T-ENUM", "T-MOR"], "level": "translation_validation"},
     "C05": {"rules": ["T-API", "T-INS", "M-UF"], "level": "other"},
